@@ -353,7 +353,8 @@ Lemma unlink_rep h frs others l1 tx l2 :
   exists h', node_unlink h (Some (tid tx)) = ROk (h', hid l2) /\
     same_meta h h' /\
     rep_st (cells h') ([tx] :: plug (frs, others) (l1 ++ l2)) /\
-    (forall i, ~ In i (ids_st st) -> cells h' i = cells h i).
+    (forall i, ~ In i (ids_st st) -> cells h' i = cells h i) /\
+    (forall j n', cells h' j = Some n' -> exists n, cells h j = Some n /\ (j <> tid tx -> npar n' = npar n)).
 Proof.
   intros st H ND. subst st. destruct tx as [x nx vx kx]. cbn [tid].
   rewrite rep_plug in H. destruct H as (Hl & Hf & Ho).
@@ -392,7 +393,17 @@ Proof.
     all: destruct (cpar frs) as [r|] eqn:Er; [|reflexivity];
       (destruct (Nat.eqb_spec i r) as [->|]; [|reflexivity]); exfalso;
       apply (H4 (lastid_nil_inv _ Ep)); apply cpar_in; exact Er. }
-  exists h'. split; [exact E|]. split; [exact M|]. split.
+  exists h'. split; [exact E|]. split; [exact M|]. split; [|split].
+  3:{ intros j n' Hj. rewrite F in Hj.
+      destruct (Nat.eqb_spec j x) as [->|Njx]; [eexists; split; [exact Hcx|intros K; contradiction]|].
+      assert (G : forall g : node -> node, (forall m, npar (g m) = npar m) -> option_map g (cells h j) = Some n' ->
+                  exists n, cells h j = Some n /\ (j <> x -> npar n' = npar n)).
+      { intros g Hg Eg. destruct (cells h j) as [m|]; [|discriminate]. cbn in Eg. inversion Eg. eexists. split; [reflexivity|]. intros _. apply Hg. }
+      destruct (peq (Some j) (hid l2)); [(eapply G; [|exact Hj]; intros m; reflexivity)|].
+      destruct (lastid l1 None) as [p|].
+      - destruct (j =? p); [(eapply G; [|exact Hj]; intros m; reflexivity)|]. eexists; split; [exact Hj|reflexivity].
+      - destruct (cpar frs) as [r|]; [|eexists; split; [exact Hj|reflexivity]].
+        destruct (j =? r); [(eapply G; [|exact Hj]; intros m; reflexivity)|]. eexists; split; [exact Hj|reflexivity]. }
   - rewrite rep_st_cons, rep_plug. repeat split.
     + rewrite rep_l_cons, rep_t_eq. cbn [tid hid_or]. repeat split; [| |apply rep_l_nil].
       * rewrite F, Nat.eqb_refl. reflexivity.
